@@ -748,9 +748,9 @@ func genC06Hist(x *Ctx) {
 								if id != 0 {
 									ops = append(ops, pktzOp{kind: 'E', id: id})
 								}
-								ops = append(ops, pktzOp{kind: 'P', payload: c.R.Bytes(n), samples: pktzPickSamples(c.R), now: pktzClockValue(c.R)})
+								ops = append(ops, pktzOp{kind: 'P', payload: c.R.Bytes(n), samples: pktzPickSamples(c.R), now: pktzClockValueIn(c.R)})
 								ops = append(ops, pktzOp{kind: 'G', n: uint32(c.R.Intn(3))})
-								ops = append(ops, pktzOp{kind: 'P', payload: c.R.Bytes(n), samples: 960, now: pktzClockValue(c.R)})
+								ops = append(ops, pktzOp{kind: 'P', payload: c.R.Bytes(n), samples: 960, now: pktzClockValueIn(c.R)})
 								c.Tag("grid")
 								if id != 0 {
 									c.Tag("abs-on")
@@ -816,6 +816,12 @@ func genC06Hist(x *Ctx) {
 			}
 			seq0 := r.Pick(0, 65530, 65535, r.Intn(65536))
 			absOn := r.Bool()
+			// The property speaks of non-empty payloads and of send instants (clock readings in
+			// 1970–2036): a history with an empty-payload call or a clock reading outside that range
+			// is outside its quantifier (wf=false, correspondence only).  One such call anywhere
+			// would take the whole history out, so they are drawn per HISTORY: five histories in six
+			// stay inside the text.
+			inText := !r.Chance(1, 6)
 			nops := r.Range(1, 12)
 			var ops []pktzOp
 			curID := 0
@@ -837,8 +843,12 @@ func genC06Hist(x *Ctx) {
 					var payload []byte
 					switch r.Intn(8) {
 					case 0:
-						if r.Bool() {
-							payload = []byte{}
+						if !inText {
+							if r.Bool() {
+								payload = []byte{}
+							}
+						} else {
+							payload = codec.gen(r, r.Range(1, 3)) // the smallest payloads
 						}
 					case 1, 2:
 						// fragment-filling size for the chunking payloaders, near it for the others
@@ -856,7 +866,17 @@ func genC06Hist(x *Ctx) {
 					default:
 						payload = codec.gen(r, r.Size(min(4*budget+10, 12000), budget, 2*budget, 1))
 					}
-					ops = append(ops, pktzOp{kind: 'P', payload: payload, samples: pktzPickSamples(r), now: pktzClockValue(r)})
+					if inText && len(payload) == 0 {
+						payload = codec.gen(r, 1)
+						if len(payload) == 0 {
+							payload = []byte{r.Byte()}
+						}
+					}
+					now := pktzClockValueIn(r)
+					if !inText {
+						now = pktzClockValue(r)
+					}
+					ops = append(ops, pktzOp{kind: 'P', payload: payload, samples: pktzPickSamples(r), now: now})
 				case k < 14:
 					ops = append(ops, pktzOp{kind: 'S', n: pktzPickSamples(r)})
 				case k < 17:
@@ -871,6 +891,9 @@ func genC06Hist(x *Ctx) {
 			c.Tag("codec:" + codec.name)
 			if small {
 				c.Tag("mtu<64")
+			}
+			if !inText {
+				c.Tag("outside-text:empty-payload/clock")
 			}
 			if absOn {
 				c.Tag("abs-on")
